@@ -1,4 +1,4 @@
-from registry import H, kani_unit, verus_unit, PROPS, UNITS
+from registry import H, kani_unit, verus_unit, native_unit, PROPS, UNITS
 
 kani_unit("air_options", "winter-air", "air/src/options.rs", "kani/air_options.rs", "options", [
     H("air_options_read_total_contract", ["C06", "C12"], ["ProofOptions::read_from", "ProofOptions::write_into", "ProofOptions::to_fri_options"],
@@ -91,3 +91,9 @@ kani_unit("air_parsers", "winter-air", "air/src/proof/mod.rs", "kani/air_parsers
     H("air_commitments_parse_bounded", ["C06", "C03"], ["Commitments::read_from", "Commitments::parse"], "parse succeeds only if every byte is consumed (UnconsumedBytes otherwise)", bounded="95, 96 and 97 commitment bytes, 32-byte digests", timeout=900),
     H("air_parsers_canary_must_fail", ["C06", "C03", "C12"], [], "false claim: Table::from_bytes always fails", canary=True),
 ], modname="verif_kani_parsers")
+
+native_unit("security_native", "winter-air", "air", "native/security_bounded.rs", ["C18"],
+            ["proof::get_proven_security", "proof::proven_security_protocol_for_m", "proof::get_conjectured_security", "Proof::security_level"],
+            "neither the proven nor the conjectured estimate decreases when the number of queries, the grinding factor, the extension degree or the hash function's collision resistance grows (everything else fixed), and neither exceeds the collision resistance",
+            "NATIVE EXECUTION, not a proof (floating-point code: CBMC has no faithful libm): f62 / f64 / f128 x extension degrees x trace lengths 2^3, 2^8, 2^12, 2^16, 2^20 x blowup 2, 4, 8, 16, 64 x folding 2, 4, 8, 16 x remainder degree 0, 7, 31 x queries 1..=255 x grinding 0..=32 x collision resistance 96 / 128",
+            timeout=1800)
